@@ -446,13 +446,17 @@ func sortStrings(s []string) {
 // store into one of them ends the path as an assertion failure.  Used for
 // the frame-condition checks (shared parser / definition objects).
 func (i *interpreter) freezeReachable(v value) {
-	e := i.eng
-	e.mu.Lock()
-	defer e.mu.Unlock()
-	if i.frozenLocal == nil {
-		i.frozenLocal = map[*value]struct{}{}
+	i.freezeInto(v, &i.frozenLocal, &i.frozenMaps)
+}
+
+func (i *interpreter) freezeInto(v value, cells *map[*value]struct{}, maps *map[*omap]struct{}) {
+	if *cells == nil {
+		*cells = map[*value]struct{}{}
 	}
-	seen := i.frozenLocal
+	if *maps == nil {
+		*maps = map[*omap]struct{}{}
+	}
+	seen := *cells
 	var walk func(v value)
 	walk = func(v value) {
 		switch v := v.(type) {
@@ -490,19 +494,20 @@ func (i *interpreter) freezeReachable(v value) {
 			if v == nil {
 				return
 			}
-			if i.frozenMaps == nil {
-				i.frozenMaps = map[*omap]struct{}{}
-			}
-			if _, ok := i.frozenMaps[v]; ok {
+			if _, ok := (*maps)[v]; ok {
 				return
 			}
-			i.frozenMaps[v] = struct{}{}
+			(*maps)[v] = struct{}{}
 			for _, en := range v.entries {
 				walk(en.key)
 				walk(en.val)
 			}
 		case *closure:
 			for _, b := range v.Env {
+				walk(b)
+			}
+		case tuple:
+			for _, b := range v {
 				walk(b)
 			}
 		}
